@@ -31,10 +31,14 @@ import data_msg                      # noqa: E402
 
 
 class _FakeThread:
+    instances = []
+
     def __init__(self, target=None, **kw):
         self.target = target
         self.alive = False
         self.daemon = False
+        _FakeThread.instances.append(self)
+        del _FakeThread.instances[:-8]
 
     def start(self):
         self.alive = True
@@ -52,6 +56,10 @@ class _FakeEvent:
 
     def set(self):
         self.flag = True
+        # the only event of clck_gen is the worker's breaker: a worker that is asked to stop
+        # does so (the ticks are driven by the harness), so code that polls is_alive() ends
+        for t in _FakeThread.instances:
+            t.alive = False
 
     def clear(self):
         self.flag = False
